@@ -959,3 +959,172 @@ func (tb *TB) Eval(n *Node, asg map[string]uint64, memo map[*Node]uint64) (uint6
 	memo[n] = r
 	return r, true
 }
+
+// EvalDefault evaluates under asg, treating variables absent from asg as 0
+// (sound when asg assigns every variable of the path condition: the others are
+// unconstrained).
+func (tb *TB) EvalDefault(n *Node, asg map[string]uint64) (uint64, bool) {
+	return tb.evalD(n, asg, map[*Node]uint64{})
+}
+
+func (tb *TB) evalD(n *Node, asg map[string]uint64, memo map[*Node]uint64) (uint64, bool) {
+	if n.op == OVar {
+		return asg[n.name], true
+	}
+	if n.op == OConst {
+		return n.val, true
+	}
+	if n.op == OApp {
+		return 0, false
+	}
+	if v, ok := memo[n]; ok {
+		return v, true
+	}
+	if n.op == OIte {
+		c, ok := tb.evalD(n.args[0], asg, memo)
+		if !ok {
+			return 0, false
+		}
+		var r uint64
+		if c == 1 {
+			r, ok = tb.evalD(n.args[1], asg, memo)
+		} else {
+			r, ok = tb.evalD(n.args[2], asg, memo)
+		}
+		if ok {
+			memo[n] = r
+		}
+		return r, ok
+	}
+	if n.w > 64 {
+		return 0, false
+	}
+	for _, a := range n.args {
+		if a.w > 64 {
+			return 0, false
+		}
+	}
+	var vs [2]uint64
+	for i, a := range n.args {
+		v, ok := tb.evalD(a, asg, memo)
+		if !ok {
+			return 0, false
+		}
+		vs[i] = v
+	}
+	b2u := func(b bool) uint64 {
+		if b {
+			return 1
+		}
+		return 0
+	}
+	var r uint64
+	switch n.op {
+	case OEq:
+		r = b2u(vs[0] == vs[1])
+	case OUlt:
+		r = b2u(vs[0] < vs[1])
+	case OUle:
+		r = b2u(vs[0] <= vs[1])
+	case OSlt:
+		r = b2u(sext64(vs[0], n.args[0].w) < sext64(vs[1], n.args[0].w))
+	case OSle:
+		r = b2u(sext64(vs[0], n.args[0].w) <= sext64(vs[1], n.args[0].w))
+	case OBAnd:
+		r = vs[0] & vs[1]
+	case OBOr:
+		r = vs[0] | vs[1]
+	case OBNot:
+		r = vs[0] ^ 1
+	case ONot:
+		r = ^vs[0] & mask(n.w)
+	case ONeg:
+		r = -vs[0] & mask(n.w)
+	case OExtract:
+		r = (vs[0] >> uint(n.lo)) & mask(n.w)
+	case OZExt:
+		r = vs[0]
+	case OSExt:
+		r = uint64(sext64(vs[0], n.args[0].w)) & mask(n.w)
+	case OConcat:
+		r = (vs[0]<<uint(n.args[1].w) | vs[1]) & mask(n.w)
+	default:
+		c := tb.foldBin(n.op, n.w, vs[0], vs[1])
+		if c == nil {
+			return 0, false
+		}
+		r = *c
+	}
+	memo[n] = r
+	return r, true
+}
+
+// foldBin: constant evaluation of a binary bit-vector operator without
+// creating nodes; nil when undefined here (division by zero).
+func (tb *TB) foldBin(op Op, w int, x, y uint64) *uint64 {
+	var r uint64
+	switch op {
+	case OAdd:
+		r = x + y
+	case OSub:
+		r = x - y
+	case OMul:
+		r = x * y
+	case OUDiv:
+		if y == 0 {
+			r = mask(w)
+		} else {
+			r = x / y
+		}
+	case OURem:
+		if y == 0 {
+			r = x
+		} else {
+			r = x % y
+		}
+	case OSDiv, OSRem:
+		if y == 0 {
+			return nil
+		}
+		sx, sy := sext64(x, w), sext64(y, w)
+		if sy == -1 {
+			if op == OSDiv {
+				r = uint64(-sx)
+			} else {
+				r = 0
+			}
+		} else if op == OSDiv {
+			r = uint64(sx / sy)
+		} else {
+			r = uint64(sx % sy)
+		}
+	case OAnd:
+		r = x & y
+	case OOr:
+		r = x | y
+	case OXor:
+		r = x ^ y
+	case OShl:
+		if y >= uint64(w) {
+			r = 0
+		} else {
+			r = x << y
+		}
+	case OLShr:
+		if y >= uint64(w) {
+			r = 0
+		} else {
+			r = x >> y
+		}
+	case OAShr:
+		sx := sext64(x, w)
+		if y >= uint64(w) {
+			y = uint64(w - 1)
+		}
+		r = uint64(sx >> y)
+	default:
+		return nil
+	}
+	r &= mask(w)
+	return &r
+}
